@@ -163,8 +163,11 @@ def rule_alpha(E, R):
     for i in exprs(body, "If"):
         if not explicit_err_returns(i["then"]) or not any(o == "Or" for o in binops(i["cond"])):
             continue
-        ms = {c["m"] for c in exprs(i["cond"], "MethodCall")}
-        lits = [x["lit"].get("v") for x in exprs(i["cond"], "Lit")]
+        # the condition, with locals that merely name one of its operands expanded
+        parts = [i["cond"]] + [let_init(body, local_name(p_)) for p_ in exprs(i["cond"], "Path")
+                               if local_name(p_) and let_init(body, local_name(p_)) is not None]
+        ms = {c["m"] for q_ in parts for c in exprs(q_, "MethodCall")}
+        lits = [lit_value(x) for q_ in parts for x in exprs(q_, ("Lit", "Path")) if lit_value(x) is not None]
         if {"first", "last"} <= ms and lits.count(46) >= 2:
             dot = True
         if {"starts_with", "ends_with"} <= ms and lits.count(".") >= 2:
